@@ -110,7 +110,9 @@ def r1_census(facts, rep, fx):
                 macros = "/".join(m.split("::")[-1] for m in sp["macros"])
                 ent = PANIC_TABLE.get(p)
                 if ent is None:
-                    rep.ob("C11-R1", "panic:%s" % p, False, "%s can panic (%s) and is not in the discharge table" % (p, macros or name), site)
+                    okk, why = auto_discharge(facts, b, site)
+                    rep.ob("C11-R1", "panic:%s" % p, okk, ("%s: %s" % (macros or name, why)) if okk else
+                           "%s can panic (%s): not in the discharge table and %s" % (p, macros or name, why), site)
                     continue
                 how, why = ent
                 if how == "frozen":
@@ -135,7 +137,9 @@ def r1_census(facts, rep, fx):
                     continue
                 ent = DIV_TABLE.get((p, m))
                 if ent is None:
-                    rep.ob("C11-R1", "div:%s:%s" % (p, m), False, "division (%s) in %s is not in the discharge table" % (name, p), site)
+                    okk, what = divisor_nonzero(facts, b, t)
+                    rep.ob("C11-R1", "div:%s:%s" % (p, m), okk, ("division in %s: the divisor is %s" % (p, what)) if okk else
+                           "division (%s) in %s is not in the discharge table and its divisor is %s" % (name, p, what), site)
                     continue
                 how, why = ent
                 if how == "zero-guard":
@@ -167,6 +171,37 @@ def r1_census(facts, rep, fx):
     rep.count("panicking sites inspected", n_sites)
     rep.count("arithmetic-overflow assertions (listed, not discharged)", overflow)
     rep.floor("C11-R1", "panicking sites", n_sites, 60 if facts.crates["anything"].get("overflow_checks") else 25)
+
+
+def auto_discharge(facts, body, site):
+    """A panicking macro expansion that no table entry explains: explore the function on symbolic arguments with the term
+    domain (integrality / sign entailment); it is discharged when no explored path reaches that site."""
+    from ..absint import core
+    from ..absint.core import Agg
+    from ..absint.term import TermDomain, Sym
+    from .evalops import numeric
+    args = []
+    for i in range(1, body.arg_count + 1):
+        ty = body.local_ty(i).replace("&mut ", "").replace("&", "").strip()
+        if ty.startswith("rational::Rational"):
+            args.append(Agg("adt", "rational::Rational", 0, "Rational", (Sym("a%d" % i),)))
+        elif ty.startswith("numeric::Numeric"):
+            args.append(numeric("a%d" % i))
+        else:
+            args.append(Sym("a%d" % i))
+    dom = TermDomain()
+    dom.uninterp = lambda n: facts.fn(n) is None
+    it = core.Interp(facts, dom, budget=60000)
+    try:
+        outs = it.run(body, args, {})
+    except core.Undecided as e:
+        return False, "the automatic discharge is undecided: %s" % e
+    hits = [o for o in outs if o.kind in ("panic", "maypanic") and o.site == site]
+    if hits:
+        return False, "%d explored path(s) reach it (e.g. where %s)" % (len(hits), "; ".join("%r=%s" % (p_, b_) for p_, b_ in dom.pc(hits[0].store)) or "always")
+    if not outs:
+        return False, "no path of the function could be explored"
+    return True, "no path of %s reaches it: the condition is implied on all %d explored paths (term domain: integrality and sign facts)" % (body.path, len(outs))
 
 
 def index_ok(facts, body, t):
